@@ -49,7 +49,12 @@ waiting:
 		}
 	}
 
+	// Workers may have been recovered since the list was built.
+	running := sch.pool.Running()
 	for _, uuid := range stale {
+		if _, ok := running[uuid]; ok {
+			continue
+		}
 		err := sch.queue.Unlock(uuid)
 		if err != nil {
 			sch.logger.Warnf("Unlock %s: %s", uuid, err)
